@@ -283,6 +283,11 @@ class Red:
         self.wit = None  # skolem witness functions, made on demand
         self.hints = []
 
+    def length(self, outer, j=0):
+        """bound length of the j-th reduced index (may depend on the outer index, e.g. cumsum)."""
+        n = self.ns[j]
+        return n(tuple(outer)) if callable(n) else n
+
     def app(self, outer):
         if self.outer_rank:
             return self.fn(*[zint(i) for i in outer])
